@@ -20,6 +20,7 @@ import realstack as rs
 
 import flexstack.facilities.decentralized_environmental_notification_service.denm_transmission_management as tm_mod
 import flexstack.facilities.local_dynamic_map.ldm_maintenance_reactive as ldm_mr_mod
+import flexstack.facilities.decentralized_environmental_notification_service.den_service as den_mod
 from flexstack.facilities.decentralized_environmental_notification_service.den_service import (
     DecentralizedEnvironmentalNotificationService)
 from flexstack.facilities.decentralized_environmental_notification_service.denm_coder import DENMCoder
@@ -183,10 +184,13 @@ class _Patched:
         fth = types.SimpleNamespace(**{k: getattr(self.o_thr, k) for k in dir(self.o_thr) if not k.startswith("__")})
         fth.Thread = FakeThread
         tm_mod.time, tm_mod.threading = ft, fth
+        # compiling the DENM ASN.1 takes seconds: every DEN service of the run shares one (stateless) coder
+        self.o_coder, den_mod.DENMCoder = den_mod.DENMCoder, (lambda: _COD)
         return self
 
     def __exit__(self, *a):
         tm_mod.time, tm_mod.threading = self.o_time, self.o_thr
+        den_mod.DENMCoder = self.o_coder
 
 
 def event_position(lat, lon, alt=800001):
@@ -703,10 +707,10 @@ def run(ctx):
             check_rx(ctx, rxs)
         check_degenerate(ctx)
         fixed = [copy.deepcopy(s) for s in FIXED_SCENARIOS]
-        gen = [gen_scenario(ctx.rng) for _ in range(ctx.scale(220, 12000))]
+        gen = [gen_scenario(ctx.rng) for _ in range(ctx.scale(600, 30000))]
         res = check_scenarios(ctx, fixed + gen)
         check_loopback(ctx, res, fixed + gen)
-        check_rx(ctx, [gen_rx_denm(ctx.rng) for _ in range(ctx.scale(400, 20000))])
+        check_rx(ctx, [gen_rx_denm(ctx.rng) for _ in range(ctx.scale(3000, 100000))])
 
 
 def search(ctx):
@@ -714,8 +718,8 @@ def search(ctx):
     ctx.model_ok = False
     try:
         with rs.quiet():
-            check_scenarios(ctx, [gen_scenario(ctx.rng) for _ in range(ctx.scale(660, 6000))])
-            check_rx(ctx, [gen_rx_denm(ctx.rng) for _ in range(ctx.scale(1200, 12000))])
+            check_scenarios(ctx, [gen_scenario(ctx.rng) for _ in range(ctx.scale(3600, 90000))])
+            check_rx(ctx, [gen_rx_denm(ctx.rng) for _ in range(ctx.scale(9000, 300000))])
     finally:
         ctx.model_ok = ok
 
